@@ -83,12 +83,16 @@ theorem encode_ttl (cipher mac zip dl ttl dc dm dz defTtl maxTtl : Int) (f1 f2 f
     (enc_validate_msg cipher mac zip dl ttl dc dm dz defTtl maxTtl f1 f2 f3 f4 f5).get "m.ttl" ttl =
       if ttl = 0 then defTtl else if ttl > maxTtl then maxTtl else ttl := by
   unfold MUNGE_MAXIMUM_TTL at h
+  have e1 : wrapU32 maxTtl = maxTtl := by unfold wrapU32; omega
+  have e2 : wrapU32 defTtl = defTtl := by unfold wrapU32; omega
   unfold enc_validate_msg at *
   simp only [apply_ite KOut.ret, apply_ite (fun o => KOut.get o "m.ttl" ttl)] at *
-  simp only [KOut.get, KOut.written, List.find?, Option.map, Option.getD, String.reduceBEq] at *
+  simp only [KOut.get, KOut.written, List.find?, Option.map, Option.getD, String.reduceBEq, e1, e2] at *
   -- the only `if`s nested inside conditions are the default resolutions of cipher and MAC
   by_cases hc : cipher = 1 <;> by_cases hm : mac = 1 <;> simp only [hc, hm, if_true, if_false] at hok ⊢
-  all_goals (unfold wrapU32 at *; omega)
+  -- every early-return leaf has ret = -1, contradicting `hok`; the last leaf carries the TTL resolution
+  all_goals (repeat' (split at hok))
+  all_goals (first | omega | (simp only [*, if_false]))
 
 /-- Consequently an encoded TTL is always within 1..max(default, maximum); with the shipped default
     (300 ≤ maximum) it is within 1..maximum unless `--max-ttl` was lowered below the default. -/
